@@ -60,7 +60,8 @@ func c04Check(c *Ctx, spec *gen.TableSpec, aligns []int, decos []namedDeco, st *
 	if st != nil {
 		b = spec.BuildStagedN(t0, st.points(), func() {
 			applyAligns(t0, st.PreAligns)
-			reused.Render()
+			o, _ := reused.Render()
+			c.Keep(o, "an earlier Render through the same wrapper")
 		})
 		applyAligns(t0, st.PreAligns)
 		reused.SetDecoration(decos[len(decos)-1].d).Render()
